@@ -123,6 +123,9 @@ def run_config(case, monitor_reads=False, calls=None):
                 dev.set_reg(35184, case["battery_modes"][j])
             if case.get("lossy"):
                 world.net.begin_script([{"k": "drop"}], {"k": "ok"})
+            if case.get("fail_request") is not None and j == 0:
+                # the n-th request of the FIRST poll is lost together with all its retransmissions
+                world.net.begin_script([{"k": "ok"}] * case["fail_request"] + [{"k": "drop"}] * 3, {"k": "ok"})
             req0 = len(dev.requests)
             rec = await C.do_call(world, "read_runtime_data", inv.read_runtime_data)
             sensors = inv.sensors()
